@@ -83,8 +83,14 @@ def b2_games(ctx, types, games, plies, setups, heavy=1, shards=4, label="games",
 def c01(ctx):
     quick = ctx.tier == "quick"
     seeds = seed_records(seeds_for(ctx.tier), both_colours=True)
-    summ = engines.oracle_replay(ctx, seeds, 2, ["C01"], label="positions")
+    ro = ctx.path("reached.ndjson")
+    summ = engines.oracle_replay(ctx, seeds, 2, ["C01"], label="positions", boards_out=ro, reached=True)
     engines.absorb_replay(ctx, summ)
+    # "reachable by legal play": the boards the CODE produces by making a legal move that touches castling
+    # rights or the en-passant target, with the moves a fresh generator returns there, against Legal(spec successor)
+    rb, rsk, rtot = engines.validate_records(ctx, ro, shards=8, workers=2, label="reached")
+    engines.absorb_records(ctx, rb, rsk, rtot, types={"moves", "panic"})
+    ctx.extra["positions_reached_by_the_codes_own_moves"] = rtot
     geo = engines.oracle_replay(ctx, ep_geometry_family(), 0, ["C01"], label="epgeometry")
     engines.absorb_replay(ctx, geo)
     ctx.extra["ep_geometry_positions"] = geo["records"]
@@ -101,6 +107,7 @@ def c01(ctx):
     ctx.extra["tags"] = {t: tags.get(t, 0) for t in ALL_KIND_TAGS + RULE_TAGS}
     ctx.sample({"binding": "B1", "what": "oracle position replayed", "tags_seen": len(tags)})
     ctx.rule = ("B1: every state of TLC's breadth-first exploration of layer R from the seed catalogue (both colours to move where consistent); "
+                "B1': after every legal move touching castling rights or the en-passant target, made by the CODE, the code's move list on the resulting board against Legal(spec successor) (Trace_Records); "
                 "B2: positions of seeded random games and random consistent set-ups with the code's move list, validated by TLC against Legal(pos). "
                 "distinct_nontrivial = B1 positions with more than one legal move")
     ctx.assumptions += ["layer R (Rules.tla) transcribes the Laws; self-tested against the published perft table (selftest)",
